@@ -316,6 +316,15 @@ where
             return Err(anyhow!("invalid signature in trampoline invoice"));
         }
 
+        // The htlc can only ever be settled with the preimage of its own
+        // payment hash, so the invoice has to commit to that same hash.
+        let invoice_payment_hash: &[u8] = invoice.payment_hash().as_ref();
+        if req.htlc.payment_hash.as_slice() != invoice_payment_hash {
+            return Err(anyhow!(
+                "payment hash of trampoline invoice does not match payment hash of htlc"
+            ));
+        }
+
         // Note that this may panic if the signature is not checked.
         let payee = invoice.get_payee_pub_key();
 
